@@ -2,11 +2,14 @@ ENTRY = {
     "level": "proof",
     "families": [fam("C31", 250, 10000)],
     "gen_items": [],
-    "rule": "cases: 60% statements of the shared SQL generator (all strata: filter case join agg distinct setop cte values gsets subquery sort_limit) over "
+    "rule": "cases: 45% statements of the shared SQL generator (all strata: filter case join agg distinct setop cte values gsets subquery sort_limit) over "
             "generated catalogs; 20% join queries of the C32 generator (2..7 relations, chains/stars/cycles/cliques, composite keys); 10% the C03 "
             "adversarial-statistics stream (group-key reduction, packed join/group keys incl. shadowing derived columns, eager aggregation); 10% templates "
             "aimed at ConstantFolding, DeriveOrPredicates, FlattenDependentJoin, SubqueryDecorrelation, SemiJoinPushdown, HavingTotalCse, VectorSearchPushdown; "
-            "layouts mem0 (statistics withheld) / mem (row counts) / pq (Parquet footer statistics). Per case: every production rule alone on the bound plan, "
+            "15% (tag shape:shared-name-semi) joins of tables that share column names (ta, tb: id, k, fk, v + one column of their own) "
+            "and self-joins through aliases under IN / NOT IN / EXISTS / NOT EXISTS predicates on a qualified column of either input, join written as JOIN / comma / CROSS / "
+            "without aliases / three-way / swapped; "
+            "layouts mem0 (statistics withheld) / mem (row counts) / pq (Parquet footer statistics). Per case: every production rule alone on the bound plan, SemiJoinPushdown alone on the decorrelated plan, "
             "every plan-changing step of the production fixpoint (replayed rule by rule), the production optimizer's result, and real executions of the bound, "
             "final and changed plans; non-trivial = at least one rule changed the plan; distinct by sha256 of the case",
     "trusted_base": COMMON_TB + [
@@ -15,8 +18,9 @@ ENTRY = {
         "(src/physical/planner.rs) are transcribed by hand; validated on every case by executing the plans (K)"],
     "assumptions": ["column and relation names contain no '.'", "statements that do not bind are skipped (no valid plan)"],
     "min_tags": {"r:JoinReorder:alone_fired": 10, "r:PredicatePushdown:alone_fired": 20, "r:ProjectionPushdown:alone_fired": 20, "r:PackedJoinKeys:step_fired": 1,
-                 "r:SubqueryDecorrelation:alone_fired": 2, "layout_pq": 50, "layout_mem0": 20, "run_ok": 100},
-    "explanation": "O = no rule returns Err/panics on a plan the checker accepts, and wf(after) && preserved(before, after) for every rule application "
+                 "r:SubqueryDecorrelation:alone_fired": 2, "layout_pq": 50, "layout_mem0": 20, "run_ok": 100,
+                 "shape:shared-name-semi": 30, "f:side_right": 8, "r:SubqueryDecorrelation>SemiJoinPushdown:alone_fired": 3},
+    "explanation": "O = no rule returns Err/panics on a plan the checker accepts, and wf(after) && preserved(before, after) && noNewBad(before, after) for every rule application "
                    "(each rule alone; each step of the production fixpoint; the production optimizer as a whole), judged in Lean on exported plans. "
                    "K = the model's run-time predictions against real executions: a plan the checker accepts does not fail with ColumnNotFound when the "
                    "unoptimized plan runs, and the result width equals the model's emitted schema.",
@@ -24,9 +28,11 @@ ENTRY = {
         "category": "proof",
         "text": "Lean: the checker preserved(before, after) implies equal output column names and types (C31_checker_sound); a plan accepted by wf never raises "
                 "column-not-found in the run-time model of the exported plans, for every catalog and every interpretation of the scalar/aggregate/window/"
-                "subquery operators (C31_wf_runs). Tie: translation validation per program — for each generated bound plan, every production rule alone, "
+                "subquery operators (C31_wf_runs); the qualifier check accepts a qualified reference only if the column the engine's resolution reads in the scope "
+                "it reads from is named exactly so, physically or through the enclosing SubqueryAlias (C31_qual_sound; the engine's suffix fallback otherwise lets `b.k` "
+                "read `a.k` without any error), and a rule that introduces no offending reference keeps a clean plan clean (C31_no_new_bad). Tie: translation validation per program — for each generated bound plan, every production rule alone, "
                 "every step of the production fixpoint and the production optimizer, with and without statistics, rule.optimize must not fail and "
-                "(before, after) must pass wf && preserved as judged in Lean on plans exported from the real optimizer.",
+                "(before, after) must pass wf && preserved && noNewBad as judged in Lean on plans exported from the real optimizer.",
         "design_ref": "DESIGN.md §6 C31",
         "level_note": "Proof of the checker + per-program validation over sampled programs (not a proof about the Rust rules). Trusted: Lean kernel, the three "
                       "standard axioms, exporter/decoder, the hand-transcribed resolution order and operator schemas (cross-checked by executing the plans).",
